@@ -20,7 +20,8 @@ CHECKS = {
     "C16": dict(
         technique="TLA+ decision table Cli.tla; TLC enumerates all 512 option sets (MC_Cli); each run for real as a subprocess on "
                   "3.7-3.10; stdout split into sections and compared with the in-process API result; TLC trace validation "
-                  "(Trace_Cli)",
+                  "(Trace_Cli); programs given as file, stream (/dev/stdin), -c, -e (also with nested scopes), -m (source, "
+                  "sourceless .pyc, frozen)",
         text="Exit status and printed sections of every option set are checked against the decision table; the data and JSON "
              "sections must be exactly the API's (normalised or not) for the same program obtained the same way; --dis-after "
              "must list the instructions of --dis.",
@@ -54,7 +55,10 @@ CHECKS = {
     "C02": dict(
         technique="TLA+ model of CPython word code (CPyUnits) and of the library decoder (Decode); TLC exhaustive MC_Decode; "
                   "model streams replayed as real code objects; TLC trace validation (Trace_Decode, clauses P02.*) of the "
-                  "library's output against dis / PyCode_Addr2Line on generated and compiled code objects",
+                  "library's output against dis / PyCode_Addr2Line on generated and compiled code objects (scopes module, shadow, dup, "
+                  "wide; sources also recompiled with shifted definition lines; one worker per version under python -O); code "
+                  "objects beyond TLC's reach (> 6000 units, the two-prefix bigjump) decided by wk/decode.direct_event with dis + "
+                  "Addr2Line and only named in Trace_Decode!Direct",
         text="Every word-code stream of the bounded model and every code object of the corpus is decoded by the real library "
              "on its interpreter; TLC evaluates C02's clauses between the recorded output and the specification's reading "
              "of the same units, which is itself required to equal dis/Addr2Line.",
@@ -62,7 +66,8 @@ CHECKS = {
     "C04": dict(
         technique="TLA+ model of CPython's parameter layout and calling convention (CPyHeader); TLC exhaustive MC_Signature over "
                   "all signature shapes; shapes rendered to source, compiled on 3.7-3.10; TLC trace validation (P04.*) "
-                  "against the calling-convention reading, inspect.signature, __doc__, inspect.is*function",
+                  "against the calling-convention reading, inspect.signature, __doc__, inspect.is*function; every rendering decoded "
+                  "under PYTHONHASHSEED 0..3",
         text="All signature shapes within the bound x function kinds x docstring shapes are compiled by the real compilers and "
              "decoded by the real library; TLC compares the decoded Args/docstring/type with CPython's own reading.",
         ref="DESIGN.md 5 C04"),
@@ -87,8 +92,10 @@ CHECKS = {
     "C07": dict(
         technique="TLA+ constant terms and documented JSON form (CPyConst), plainness and a JSON-Schema validator written in "
                   "TLA+ (JsonCodec) applied to the PUBLISHED schema; TLC enumerates terms (MC_Json, injectivity up to LibKey); "
-                  "real documents tagged node by node and validated by TLC (Trace_Json); TLA+ validator cross-checked with the "
-                  "jsonschema package on every document",
+                  "the documented form of a whole document and its reader (JsonDoc: DocOf, FromDoc) with 3576 document shapes (MC_Doc, "
+                  "invariant FromDoc(DocOf(x)) = x); real documents tagged node by node and validated by TLC (Trace_Json); TLA+ "
+                  "validator cross-checked with the jsonschema package on every document; cycles with default, non-ASCII, sorted "
+                  "and reversed key order; integers swept by digit count",
         text="Every constant term of the bounded model at every position of a hand-built CodeData, and decoded/normalised corpus "
              "data, go through to_json_data, strict dumps/loads and from_json_data on the real library; TLC decides plainness, "
              "schema validity, equality, hash and identical code from the recording.",
@@ -96,7 +103,8 @@ CHECKS = {
     "C08": dict(
         technique="TLA+ partitions LibKey/CPyKey (CPyConst) as the expected equality; all pairs of model terms x 25 route pairs "
                   "compared on the real library; TLC trace validation (Trace_Values); CPyKey bound to ctypes "
-                  "_PyCode_ConstantKey; frozen-field probing; hash agreement along API histories (Trace_Api P08.hash)",
+                  "_PyCode_ConstantKey; frozen-field and mutable-part probing; the same program by seven routes (equal data, equal "
+                  "hash, identical code); single-attribute perturbations; hash agreement along API histories (Trace_Api P08.hash)",
         text="TLC requires real equality among constants built by five routes to coincide with LibKey-equality for every pair of "
              "terms, with hash/set/dict consistency, symmetry and reflexivity, and immutability of every dataclass field.",
         ref="DESIGN.md 5 C08"),
@@ -127,13 +135,15 @@ CHECKS = {
     "C12": dict(
         technique="TLA+ history machine Api.tla; TLC enumerates all histories up to a length (MC_Api); each replayed on real "
                   "objects with deep fingerprints of every live object after every call; TLC trace validation (Trace_Api, "
-                  "P12.*)",
+                  "P12.*); JSON codec purity / repeat / alias probes on MC_Json terms and MC_Doc shapes (Trace_Json); history "
+                  "independence: documents of another process loaded and encoded first thing and at the end of a worker's life",
         text="Every history of the bounded API machine is executed on several real base programs per interpreter, documents "
              "used as returned; TLC requires that no stored object ever changes, no call raises, and repeated calls agree.",
         ref="DESIGN.md 5 C12"),
     "C13": dict(
         technique="TLA+ MC_Decode exhaustive over jump graphs on word-code streams; replay as real code objects; TLC trace "
-                  "validation (Trace_Decode, clauses P13.*) of block structure against dis jump targets",
+                  "validation (Trace_Decode, clauses P13.*) of block structure against dis jump targets; oversized code objects "
+                  "(bigjump: a jump operand with two EXTENDED_ARG prefixes) decided by wk/decode.direct_event",
         text="Block starts of the real library's output are compared by TLC with {0} + the instruction indices CPython's jumps "
              "land on, for every stream of the bounded model and every corpus code object.",
         ref="DESIGN.md 5 C13"),
